@@ -66,15 +66,15 @@ def install(eng):
                  requires=CINV, modifies=["self._cache"], cover_hints=["not any(True for k in self._cache)"],
                  ensures=CINV + ["(result is None) == (not fs_exists(self, path))",
                                  "implies(result is not None, the(result) == fs_mtime(self, path))"],
-                 uses=["cachedfs"], serves=["C01", "C03", "C04"])
+                 uses=["cachedfs"], serves=["C01", "C03", "C04", "C06"])
     eng.contract("gwf.core:CachedFilesystem.exists", self_type=CF, params={"self": CF, "path": vc.Path}, returns=T.BOOL,
                  requires=CINV, modifies=["self._cache"], ensures=CINV + ["result == fs_exists(self, path)"],
-                 uses=["cachedfs"], serves=["C01", "C03", "C04"])
+                 uses=["cachedfs"], serves=["C01", "C03", "C04", "C06"])
     eng.contract("gwf.core:CachedFilesystem.changed_at", self_type=CF, params={"self": CF, "path": vc.Path}, returns=T.REAL,
                  requires=CINV, modifies=["self._cache"],
                  ensures=CINV + ["result == fs_mtime(self, path)", "fs_exists(self, path)"],
                  raises={"FileNotFoundError": {"cond": "not fs_exists(self, path)", "ensures": CINV}},
-                 uses=["cachedfs"], serves=["C01", "C03", "C04"])
+                 uses=["cachedfs"], serves=["C01", "C03", "C04", "C06"])
     DISKT = ["ghost:disk_exists", "ghost:disk_valid", "ghost:disk_tracked"]
     eng.contract(
         "gwf.backends.base:create_backend", params={"name": T.Atom("BackendName"), "working_dir": vc.Path,
